@@ -31,11 +31,28 @@ def leaf_array(mode, spec, fmt):
         return a
     if spec.get("kind") == "allnan":
         return empty_buffer_array(mode, 256, 256)
+    if spec.get("kind") == "constant" and mode in ("F32", "F64"):
+        # every defined pixel has the same value (a saturated or padded region)
+        a = np.full((256, 256), float(spec.get("offset", 0)) + 0.5 * spec["salt"], dtype=np.float32 if mode == "F32" else np.float64)
+        for h in spec.get("holes", []):
+            y0, y1 = sorted(((h[0] * 7) % 257, (h[1] * 7) % 257))
+            x0, x1 = sorted(((h[2] * 7) % 257, (h[3] * 7) % 257))
+            a[y0:y1, x0:x1] = np.nan
+        if np.isnan(a).all():
+            a[0, 0] = float(spec.get("offset", 0)) + 0.5 * spec["salt"]
+        return a
     holes = [[h[0] * 7, h[1] * 7, h[2] * 7, h[3] * 7, True] for h in spec.get("holes", [])]
     a = make_array(mode, 256, 256, spec["salt"], holes)
     off = spec.get("offset", 0)
     if off and a.dtype.kind == "f":
         a = (a + np.asarray(off, dtype=a.dtype)).astype(a.dtype)
+    if spec.get("big") and a.dtype.kind == "i":
+        # values that a single-precision accumulator cannot hold exactly
+        big = {2: 30000, 4: 2**28 + 12345}[a.dtype.itemsize]
+        a = np.where(a > 0, a.astype(np.int64) * (1 if a.dtype.itemsize == 2 else 1001) + big, 0).astype(a.dtype)
+    for (yy, xx) in spec.get("inf", []):
+        if a.dtype.kind == "f":
+            a[yy % 256, xx % 256] = np.inf  # non-NaN, hence defined: a block holding it averages to +inf
     if spec.get("via") == "update2" and a.dtype.kind == "f" and a.ndim == 2:
         # the second painting pass (columns >= 128) extends the data range
         a[3, 200] = np.nanmax(a) + 100 + spec["salt"]
@@ -210,11 +227,17 @@ def cascade_cases(draw, tier, formats=None, want_range=False):
         if mode in ("F32", "F64", "F16x3", "RGBA"):
             spec["holes"] = [[draw(st.integers(0, 40)) for _ in range(4)] for _ in range(draw(st.integers(0, 2)))]
         if mode in ("F32", "F64"):
-            spec["offset"] = draw(st.sampled_from([0, 0, -1, -50, -97, 1000]))
-            if fmt in ("fits", "npy") and not want_range and draw(st.integers(0, 9)) == 0:
+            spec["offset"] = draw(st.sampled_from([0, 0, -1, -50, -97, 1000, -200, -200, 500]))
+            if draw(st.integers(0, 5)) == 0:
+                spec["kind"] = "constant"
+            if fmt in ("fits", "npy") and not want_range and spec.get("kind") is None and draw(st.integers(0, 9)) == 0:
                 spec["kind"] = "allnan"
             if draw(st.integers(0, 3)) == 0:
                 spec["via"] = "update2"
+            if not want_range and draw(st.integers(0, 4)) == 0:
+                spec["inf"] = [[draw(st.integers(0, 255)), draw(st.integers(0, 255))] for _ in range(draw(st.integers(1, 3)))]
+        if mode in ("I16", "I32") and draw(st.booleans()):
+            spec["big"] = True
         leaves.append(spec)
     case = {"format": fmt, "mode": mode, "depth": depth, "leaves": leaves}
     # stale parent files at positions that have at least one child
